@@ -171,7 +171,7 @@ def model_config_mismatches(ctx, results):
 
 def run(ctx):
     rng = random.Random(ctx["seed"])
-    n = 10000 if ctx["tier"] == "thorough" else 300
+    n = 10000 if ctx["tier"] == "thorough" else 900
     cases = simcheck.load_corpus("C20") + gen_cases(rng, n)
     results = simcheck.run_cases(ctx, "harness.props.c20", cases)
     bad, nchk = model_config_mismatches(ctx, results[:3000])
